@@ -51,7 +51,7 @@ NewId == Cardinality(Ids) + 1
 EmptyCache == [p \in {} |-> 0]
 Fill(cache, p, x) == [q \in DOMAIN cache \cup {p} |-> IF q = p THEN x ELSE cache[q]]
 
-Init == heap = <<>> /\ lru = <<>> /\ hostc = {} /\ last = [call |-> <<"none">>, result |-> <<"nil">>] /\ steps = 0
+Init == heap = <<>> /\ lru = <<>> /\ hostc = {} /\ last = [call |-> <<"none">>, result |-> <<"nil">>, obj |-> 0] /\ steps = 0
 
 LruIndex(v) == {i \in 1..Len(lru) : lru[i][1] = v}
 Touch(i) == SubSeq(lru, 1, i - 1) \o SubSeq(lru, i + 1, Len(lru)) \o <<lru[i]>>
@@ -61,7 +61,7 @@ Tick == steps < MaxSteps /\ steps' = steps + 1
 CtorHit(v) == /\ Tick /\ LruIndex(v) # {}
               /\ LET i == CHOOSE j \in LruIndex(v) : TRUE IN
                  /\ lru' = Touch(i)
-                 /\ last' = [call |-> <<"ctor", v>>, result |-> <<"obj", heap[lru[i][2]].val>>]
+                 /\ last' = [call |-> <<"ctor", v>>, result |-> <<"obj", heap[lru[i][2]].val>>, obj |-> lru[i][2]]
               /\ UNCHANGED <<heap, hostc>>
 \* miss: new object with some eager entries, stored; LRU eviction
 CtorMiss(v) == /\ Tick /\ LruIndex(v) = {} /\ Cardinality(Ids) < MaxObjs
@@ -70,20 +70,20 @@ CtorMiss(v) == /\ Tick /\ LruIndex(v) = {} /\ Cardinality(Ids) < MaxObjs
                         o == NewId IN
                     /\ heap' = Append(heap, [val |-> v, cache |-> c])
                     /\ lru' = (IF Len(lru) >= LruSize THEN Tail(lru) ELSE lru) \o << <<v, o>> >>
-                    /\ last' = [call |-> <<"ctor", v>>, result |-> <<"obj", v>>]
+                    /\ last' = [call |-> <<"ctor", v>>, result |-> <<"obj", v>>, obj |-> o]
                /\ UNCHANGED hostc
 \* a modifier: result value w from receiver o (from_parts is cached the same way: modelled by Ctor* on w)
 Modify(o, w) == /\ Tick /\ o \in Ids /\ Cardinality(Ids) < MaxObjs
                 /\ heap' = Append(heap, [val |-> w, cache |-> EmptyCache])
-                /\ last' = [call |-> <<"modify", heap[o].val, w>>, result |-> <<"obj", w>>]
+                /\ last' = [call |-> <<"modify", heap[o].val, w>>, result |-> <<"obj", w>>, obj |-> o]
                 /\ UNCHANGED <<lru, hostc>>
 \* reading accessor p of object o
 PropHit(o, p) == /\ Tick /\ o \in Ids /\ p \in DOMAIN heap[o].cache
-                 /\ last' = [call |-> <<"read", heap[o].val, p>>, result |-> heap[o].cache[p]]
+                 /\ last' = [call |-> <<"read", heap[o].val, p>>, result |-> heap[o].cache[p], obj |-> o]
                  /\ UNCHANGED <<heap, lru, hostc>>
 PropFill(o, p) == /\ Tick /\ o \in Ids /\ p \notin DOMAIN heap[o].cache
                   /\ heap' = [heap EXCEPT ![o].cache = Fill(@, p, Derive(p, heap[o].val))]
-                  /\ last' = [call |-> <<"read", heap[o].val, p>>, result |-> Derive(p, heap[o].val)]
+                  /\ last' = [call |-> <<"read", heap[o].val, p>>, result |-> Derive(p, heap[o].val), obj |-> o]
                   /\ UNCHANGED <<lru, hostc>>
 \* pickle.loads(pickle.dumps(o)): URL.__new__(UNDEFINED) gives a FRESH object whose state is then set
 Unpickle(o) == /\ Tick /\ o \in Ids
@@ -93,20 +93,20 @@ Unpickle(o) == /\ Tick /\ o \in Ids
                        heap' = [heap EXCEPT ![victim] = [val |-> heap[o].val, cache |-> EmptyCache]]
                   ELSE /\ Cardinality(Ids) < MaxObjs
                        /\ heap' = Append(heap, [val |-> heap[o].val, cache |-> EmptyCache])
-               /\ last' = [call |-> <<"unpickle", heap[o].val>>, result |-> <<"obj", heap[o].val>>]
+               /\ last' = [call |-> <<"unpickle", heap[o].val>>, result |-> <<"obj", heap[o].val>>, obj |-> o]
                /\ UNCHANGED <<lru, hostc>>
 \* _encode_host(h, flag)
 HostKey(h, flag) == IF Dev_HostKeyWithoutFlag THEN <<h>> ELSE <<h, flag>>
 HostCall(h, flag) == /\ Tick
                      /\ LET hit == {e \in hostc : e[1] = HostKey(h, flag)} IN
-                        IF hit # {} THEN /\ last' = [call |-> <<"host", h, flag>>, result |-> (CHOOSE e \in hit : TRUE)[2]]
+                        IF hit # {} THEN /\ last' = [call |-> <<"host", h, flag>>, result |-> (CHOOSE e \in hit : TRUE)[2], obj |-> 0]
                                          /\ UNCHANGED hostc
                         ELSE /\ hostc' = hostc \cup {<<HostKey(h, flag), PureHost(h, flag)>>}
-                             /\ last' = [call |-> <<"host", h, flag>>, result |-> PureHost(h, flag)]
+                             /\ last' = [call |-> <<"host", h, flag>>, result |-> PureHost(h, flag), obj |-> 0]
                      /\ UNCHANGED <<heap, lru>>
-CacheClear == /\ Tick /\ hostc' = {} /\ last' = [call |-> <<"cache_clear">>, result |-> <<"nil">>] /\ UNCHANGED <<heap, lru>>
+CacheClear == /\ Tick /\ hostc' = {} /\ last' = [call |-> <<"cache_clear">>, result |-> <<"nil">>, obj |-> 0] /\ UNCHANGED <<heap, lru>>
 \* cache_configure re-wraps the same pure functions with new (empty) caches
-CacheConfigure == /\ Tick /\ hostc' = {} /\ last' = [call |-> <<"cache_configure">>, result |-> <<"nil">>] /\ UNCHANGED <<heap, lru>>
+CacheConfigure == /\ Tick /\ hostc' = {} /\ last' = [call |-> <<"cache_configure">>, result |-> <<"nil">>, obj |-> 0] /\ UNCHANGED <<heap, lru>>
 
 Next == \/ \E v \in Vals : CtorHit(v) \/ CtorMiss(v)
         \/ \E o \in Ids, w \in Vals : Modify(o, w)
